@@ -339,6 +339,40 @@ PROPS = {
         "level_note": "Trusted: Coq kernel, extraction, TCP harness, net/http. Modelled, not verified: gateway.go, converter.go, "
                       "jsonrpc2.go.",
     },
+    "C16": {
+        "rule": "forced schedules on the in-memory server rig: systematic part = one request of every kind (normal, one-way, "
+                "heartbeat, rate-limited, failing authentication, rejected by a plugin) with Shutdown begun at every point of "
+                "its path (read / dispatch / handler start / response write / un-count), goroutine-per-request and worker-pool "
+                "dispatch, x {one Shutdown, two Shutdowns, a connection arriving during the shutdown}, followed by a late "
+                "request and a late connection; random part = 120 (thorough 3000) schedules of 1-4 requests on 1-3 connections "
+                "with Shutdown at a random point and occasional second Shutdown / Close / deadline expiry / peer disconnect; "
+                "non-trivial = a Shutdown is issued with at least one request in the schedule",
+        "theorems": ["C16_drains_what_was_read", "C16_drained_state", "C16_connections_closed_after_the_wait", "C16_count_exact",
+                     "C16_wait_ends_when_idle", "C16_nothing_starts_after_completion", "C16_serve_returns_server_closed",
+                     "C16_serve_returns_after_completion", "C16_done_closed_at_most_once", "C16_one_shutdown_runs",
+                     "C16_later_shutdown_returns_at_once"],
+        "assumptions": ["'read' is the completion of readRequest's decode-and-count step: the few instructions between the last byte "
+                        "being consumed and the atomic increment (no call-out, no lock, no blocking operation) are one model event "
+                        "and cannot be exhibited by the model",
+                        "AsyncWrite is outside the property; TCP half-close (CloseRead) is replaced by in-memory pipes",
+                        "requests read after the wait loop ended and before the connections are closed ('late' in the model) are in "
+                        "neither clause of the property",
+                        "the HTTP gateway / JSON-RPC servers closed inside Shutdown are externals (net/http)"],
+        "trusted": ["harness/cmd/vh/c16.go: gates in PostConnAccept / PreRead / PostRead / PostWriteResponse plugins, the hook "
+                    "server.process.enter (or a gated custom pool), handler entry, the connection's Write; polls of the wait loop observed "
+                    "through the server's logger; shutdownPollInterval shortened through the export; the static action -> model-event "
+                    "expansion (by request kind only)"],
+        "level_text": "Theorems over every schedule (every interleaving of any number of connections, requests of six kinds, Shutdown "
+                      "callers, Close calls, peer disconnects and deadline expiries): the in-progress count is exact; a Shutdown that "
+                      "returns nil has drained everything read before its wait loop ended, each response written to a still-open "
+                      "connection; nothing is read and no handler starts after completion; Serve returns ErrServerClosed after doneChan "
+                      "is closed; doneChan is closed at most once and later Shutdown calls return at once. The model is compared step by "
+                      "step (count, gate reached per request, responses delivered, state of every Shutdown call, Serve) with the real "
+                      "server on forced schedules.",
+        "level_note": "Trusted: Coq kernel, extraction, the forced-schedule rig and its hooks. Modelled, not verified: Shutdown, Close, "
+                      "closeDoneChanLocked, serveListener's exit, serveConn's loop and exit, readRequest's counting, processOneRequest's "
+                      "un-counting. Partial where named under assumptions (the decode-to-increment window).",
+    },
     "C12": {
         "rule": "exhaustive weight vectors (quick: n<=3,w<=4 and n=4,w<=2; thorough: n<=4,w<=6) from a random window "
                 "offset, round-robin sets n=0..8 from every cursor offset, and random update/selection histories over a "
